@@ -248,6 +248,10 @@ func (t *Tokenizer) tokenizeBuffer(buf []byte, last bool) {
 					t.handleNum(off)
 				case 't':
 					t.addToken(string(t.tmp))
+					if t.mode == colonMap {
+						// The token was a key, there is no value for it.
+						t.newError(off, "expected a colon, not '}'")
+					}
 				}
 			}
 			t.starts = t.starts[0:depth]
